@@ -160,7 +160,7 @@ REGISTRY["C10"] = {
     "modules": ["contracts.rt"],
     "category": "exploration",
     "technique": "run-time frame contract (every shared register object exported by the architecture keeps size/sign flag/type/name; env.internals and regtype.cur unchanged) evaluated around decode/format/execute of spec-driven generated instructions",
-    "level_text": "Bounded (concrete inputs): for every cpu module, every specification is decoded, formatted and executed once or more and the frame contract 'shared objects unchanged' is evaluated around it. The semantic clause (a map built after other analysis work denotes the same function) follows from the frame contract only for the state the monitor fingerprints; no proof is claimed.",
+    "level_text": "Bounded (concrete inputs): for every cpu module, every specification is decoded, formatted and executed once or more and the frame contract 'shared objects unchanged' is evaluated around it (shared registers, module state, and the sign flags of expression nodes held by the map the instruction is applied to). The semantic clause is evaluated directly on 15 (thorough: 40) block maps per cpu and mode: each map is observed by evaluation on a seeded constant state, then a history of compositions, merges and executions runs, and afterwards the same map objects must evaluate as before and maps rebuilt from the same instructions must evaluate the same. No proof is claimed.",
     "level_note": "bounded stand-in; the symbolic counterpart for the expression algebra is part of C13 (operands keep their denotation) and was the subject of fix b75f9ec.",
     "design_ref": "DESIGN.md section 4 (C10)",
     "rule": "per shipped specification one or more encodings; distinct = different mnemonics executed",
